@@ -147,14 +147,22 @@ fn fail(rep: &mut Report, kind: &str, what: String, stream: &[u8], script: &[Ste
     rep.violation(&format!("{}|reader|{}", ID, kind), J::obj().with("what", J::s(what)).with("stream", J::s(hex(&stream[..stream.len().min(200)]))).with("script", J::s(sc.join(",").chars().take(300).collect::<String>())).with("max_len", J::U(max_len as u64)), replay);
 }
 
+/// Stale content for `with_buffer`: bytes that look like frames and CBOR, length 0..=47.
+pub fn junk_buffer(k: usize) -> Vec<u8> {
+    let n = (k * 31 + 7) % 48;
+    (0..n).map(|j| [0x00u8, 0x00, 0x00, 0x02, 0x82, 0x01, 0x18, 0xff, 0x9f, 0x61][(j + k) % 10]).collect()
+}
+
 /// Run the reader over `stream` delivered per `script`; compare with the model.
 pub fn check_read(rep: &mut Report, stream: &[u8], script: &[Step], max_len: usize) {
     rep.eval();
     let expect = refframe(stream, max_len);
+    // half of the runs reuse a caller-supplied buffer with stale content (`with_buffer`)
+    let dirty = (stream.len() + script.len() + max_len) % 2 == 1;
     let sc = mon::AllocScope::begin();
     let r = mon::guarded(|| {
         let src = ScriptRead { data: stream, pos: 0, script, i: 0, reads: 0, max_request: 0 };
-        let mut rd = Reader::new(src);
+        let mut rd = if dirty { Reader::with_buffer(src, junk_buffer(stream.len() * 7 + script.len())) } else { Reader::new(src) };
         rd.set_max_len(max_len as u32);
         let mut got = Vec::new();
         for _ in 0..expect.len() {
@@ -182,7 +190,9 @@ pub fn check_read(rep: &mut Report, stream: &[u8], script: &[Step], max_len: usi
             if consumed > stream.len() {
                 fail(rep, "consumed", format!("{} bytes consumed of {}", consumed, stream.len()), stream, script, max_len);
             }
-            if buflen > max_len || maxreq > max_len.max(4) {
+            // a caller-supplied buffer keeps its own (stale) length until the reader sizes it for a frame
+            let supplied = if dirty { junk_buffer(stream.len() * 7 + script.len()).len() } else { 0 };
+            if buflen > max_len.max(supplied) || maxreq > max_len.max(4) {
                 fail(rep, "buffer", format!("buffer length {} / largest read request {} exceed max_len {}", buflen, maxreq, max_len), stream, script, max_len);
             }
             if mon::alloc_active() && al.peak > 2 * max_len + 4096 + 4 * stream.len() {
@@ -251,7 +261,8 @@ pub fn check_write(rep: &mut Report, seed: u64, i: u64) {
     let script: Vec<Step> = (0..rng.below(40)).map(|_| if rng.chance(1, 5) { Step::Interrupted } else { Step::Deliver(1 + rng.below(9) as usize) }).collect();
     let rp = vec!["c14".into(), "--seed".into(), seed.to_string(), "--replay".into(), "write".into(), i.to_string()];
     let r = mon::guarded(|| {
-        let mut w = Writer::new(ScriptWrite { out: Vec::new(), script: &script, i: 0 });
+        let sink = ScriptWrite { out: Vec::new(), script: &script, i: 0 };
+        let mut w = if i % 2 == 1 { Writer::with_buffer(sink, junk_buffer(i as usize)) } else { Writer::new(sink) };
         w.set_max_len(max_len as u32);
         let mut want: Vec<u8> = Vec::new();
         for _ in 0..n {
